@@ -143,6 +143,10 @@ def extra_programs():
                                                               "    sig[3:2] <<= self.src[3:2]", "    cohdl.always(aw())", "    self.q <<= sig"]), "reject"))
     out.append(("x|variable-read-in-own-always", _x_entity(["v = Variable[BitVector[4]](name='v')"], ["@std.sequential(std.Clock(self.clk))", "def w():", "    nonlocal v", "    v @= self.src",
                                                                                                     "    self.q <<= cohdl.always(v & self.pin)"]), "reject"))
+    out.append(("x|variable-only-in-own-always", _x_entity(["v = Variable[BitVector[4]](name='v')"], ["@std.sequential(std.Clock(self.clk))", "def w():", "    nonlocal sig", "    sig <<= self.src",
+                                                                                                    "    with cohdl.always:", "        self.q <<= v"]), "reject"))
+    out.append(("x|always-with-block-writes-own-target", _x_entity([], ["@std.sequential(std.Clock(self.clk))", "def w():", "    nonlocal sig", "    sig[3:2] <<= self.src[3:2]",
+                                                                   "    with cohdl.always:", "        sig[1:0] <<= self.pin[1:0]", "    self.q <<= sig"]), "reject"))
     out.append(("x|always-reads-signal-written-in-body", _x_entity([], ["@std.sequential(std.Clock(self.clk))", "def w():", "    nonlocal sig", "    sig <<= self.src",
                                                                    "    self.q <<= cohdl.always(sig & self.pin)"]), "accept"))
     # two outputs of one instance
